@@ -324,7 +324,7 @@ func (e *Equation) appendValue(buf []byte, v any) []byte {
 	case Expr:
 		buf = tv.Append(buf)
 	case *regexp.Regexp:
-		buf = AppendString(buf, tv.String(), '/')
+		buf = appendRegex(buf, tv)
 	}
 	return buf
 }
